@@ -35,6 +35,11 @@ type FS struct {
 	Unreadable map[string]bool
 	// Links are symbolic links: name -> the name it points to.
 	Links map[string]string
+	// Fifos are named pipes with a reader attached (`-o >(cmd)`, `mkfifo`):
+	// what is written arrives (Files[name] holds what the reader received),
+	// there is nothing to truncate, fsync says EINVAL, and a rename onto the
+	// name replaces the pipe by a regular file.
+	Fifos map[string]bool
 }
 
 // Resolve follows symbolic links (a bounded number of them).
@@ -50,7 +55,7 @@ func (f *FS) Resolve(name string) string {
 }
 
 func NewFS() *FS {
-	return &FS{Files: map[string][]byte{}, Dirs: map[string]bool{".": true}, ReadOnly: map[string]bool{}, Unreadable: map[string]bool{}, Links: map[string]string{}}
+	return &FS{Files: map[string][]byte{}, Dirs: map[string]bool{".": true}, ReadOnly: map[string]bool{}, Unreadable: map[string]bool{}, Links: map[string]string{}, Fifos: map[string]bool{}}
 }
 
 // RestoreFrom makes f hold what snapshot holds (the snapshot is consumed).
@@ -72,6 +77,9 @@ func (f *FS) Clone() *FS {
 	}
 	for k, v := range f.Links {
 		g.Links[k] = v
+	}
+	for k, v := range f.Fifos {
+		g.Fifos[k] = v
 	}
 	return g
 }
@@ -599,6 +607,11 @@ func OpenFile(name string, flag int) (*Handle, error) {
 		rec.Result = "EEXIST"
 		return nil, pathErr("open", name, syscall.EEXIST)
 	}
+	if p.FS.Fifos[name] {
+		// nothing to truncate; every write appends to what the reader has
+		rec.Result = "ok (fifo)"
+		return &Handle{Name: name, write: true, app: true, std: -1}, nil
+	}
 	if !exists || flag&oTRUNC != 0 {
 		p.FS.Files[name] = []byte{}
 	}
@@ -754,6 +767,9 @@ func Stat(name string) (Info, error) {
 	if !ok {
 		return Info{}, pathErr("stat", name, syscall.ENOENT)
 	}
+	if p.FS.Fifos[name] {
+		return Info{Name: name, Pipe: true, Clock: p.Clock}, nil
+	}
 	return Info{Name: name, Size: int64(len(d)), Clock: p.Clock}, nil
 }
 
@@ -772,7 +788,21 @@ func (h *Handle) Stat() (Info, error) {
 		}
 		return Info{Name: h.Name, Pipe: true, Clock: p.Clock}, nil
 	}
+	if p.FS.Fifos[h.Name] {
+		return Info{Name: h.Name, Pipe: true, Clock: p.Clock}, nil
+	}
 	return Info{Name: h.Name, Size: int64(len(p.FS.Files[h.Name])), Clock: p.Clock}, nil
+}
+
+// Sync implements (*os.File).Sync: pipes, terminals and named pipes have
+// nothing to synchronise and say EINVAL, as the real ones do.
+func (h *Handle) Sync() error {
+	p := Cur
+	p.Steps = append(p.Steps, StepRec{N: len(p.Steps), Kind: "fsync", Arg: h.Name})
+	if h.std >= 0 || p.FS.Fifos[h.Name] {
+		return pathErr("sync", h.Name, syscall.EINVAL)
+	}
+	return nil
 }
 
 // Remove implements os.Remove.
@@ -787,6 +817,7 @@ func Remove(name string) error {
 		return pathErr("remove", name, syscall.ENOENT)
 	}
 	delete(p.FS.Files, name)
+	delete(p.FS.Fifos, name)
 	return nil
 }
 
@@ -802,6 +833,7 @@ func Rename(from, to string) error {
 		return &fs.PathError{Op: "rename", Path: to, Err: syscall.ENOENT}
 	}
 	delete(p.FS.Links, to) // rename replaces a symbolic link itself, it does not follow it
+	delete(p.FS.Fifos, to) // and a named pipe: what is there afterwards is a regular file
 	p.FS.Files[to] = d
 	delete(p.FS.Files, from)
 	return nil
@@ -818,7 +850,7 @@ func Mkdir(name string) error {
 // Truncate implements (*os.File).Truncate for a file open for writing.
 func (h *Handle) Truncate(size int64) error {
 	p := Cur
-	if h.std >= 0 || !h.write {
+	if h.std >= 0 || !h.write || p.FS.Fifos[h.Name] {
 		return pathErr("truncate", h.Name, syscall.EINVAL)
 	}
 	d := p.FS.Files[h.Name]
